@@ -3,7 +3,8 @@ import Mutiny.Model.Wake
 /-!
 # Invariants of the `Wake` model (M8): poll / park / wake protocol of a Uni channel
 
-* `WInv` — the invariant behind C04 (no lost wake-up) for executions without `cancel`, `asyncMov`, `dropS`;
+* `WInv` — the invariant behind C04 (no lost wake-up) for executions without `cancel`, `dropS` (and `asyncMov` on the
+  movable atomic channel only);
 * `CInv` — the invariant behind C07 (cancel terminates the targeted stream) for arbitrary executions in which
   tokens are task identities (`TokRun`);
 * decision procedure for `stuck` on concrete executions (`stuck_run_of_check`), used by the recorded counterexamples.
@@ -35,12 +36,15 @@ def SLoc.live : SLoc → Prop
   | .ended | .dLock | .dSpin | .dWaker | .dSyncLock | .dSyncSpin | .dSync | .dropped => False
   | _ => True
 
-/-- the actions of a C04 execution: everything except `cancel`, the movable `send_with_async` and dropping streams -/
-def C04Act : Act → Prop
-  | .cancel _ _ | .asyncMov _ _ | .dropS _ => False
+/-- the actions of a C04 execution: everything except `cancel` and dropping streams; the movable `send_with_async` only on
+    the movable ATOMIC channel (`rule = atomic`, where its wake decision uses the length measured after the publication —
+    on the movable full-sync channel the call holds the queue-wide lock while suspended: finding D8b) -/
+def C04Act (r : Rule) : Act → Prop
+  | .cancel _ _ | .dropS _ => False
+  | .asyncMov _ _ => r = .atomic
   | _ => True
 
-instance : DecidablePred C04Act := fun a => by cases a <;> simp only [C04Act] <;> infer_instance
+instance (r : Rule) : DecidablePred (C04Act r) := fun a => by cases a <;> simp only [C04Act] <;> infer_instance
 
 /-! ## constants -/
 
@@ -49,19 +53,28 @@ theorem rule_target_one (r : Rule) (mx : Nat) (h : 0 < mx) : r.target mx 1 = som
 
 /-! ## the C04 invariant -/
 
+/-- (W1): some existing stream is armed, or some producer is inside a `wake_stream(j)` of an existing stream, or some
+    producer has just published the OLDEST pending event (`slot = number of events taken so far`) and is about to measure the
+    length — it will find `1` and wake stream 0 -/
+def W1 (s : St) : Prop :=
+  (∃ j, j < s.k ∧ armed s j = true) ∨ (∃ t j, j < s.k ∧ inWake (s.thr t) j) ∨ (∃ t r, s.thr t = .pSmp s.delivered.length r)
+
 structure WInv (s : St) : Prop where
   mxpos   : 0 < s.MAX
   kpos    : 0 < s.k
   /-- (W0) -/
   keepT   : ∀ j, j < s.k → s.keep j = true
-  resvE   : s.resv = []
+  /-- every accepted event is delivered or queued -/
+  lenEq   : s.accepted.length = s.delivered.length + s.q.length
+  /-- only the movable atomic channel's asynchronous sends are part of a C04 execution -/
+  suspAt  : ∀ t v l, s.thr t = .aSusp v l → s.rule = .atomic
   noCanc  : ∀ t j, s.thr t ≠ .cCancel j
   slocOut : ∀ j, s.k ≤ j → s.sloc j = .ready
   slocLv  : ∀ j, (s.sloc j).live
   /-- (W2) -/
   w2      : ∀ j, s.sloc j = .parked ∨ s.sloc j = .sSelfWake → s.waker j = some (s.tok j)
   /-- (W1) -/
-  w1      : s.q ≠ [] → (∃ j, j < s.k ∧ armed s j = true) ∨ (∃ t j, j < s.k ∧ inWake (s.thr t) j)
+  w1      : s.q ≠ [] → W1 s
 
 theorem winv_init (n mx k : Nat) (rule : Rule) (zc : Bool) (hm : 0 < mx) (hk : 0 < k) :
     WInv (init n mx k rule zc) := by
@@ -70,27 +83,31 @@ theorem winv_init (n mx k : Nat) (rule : Rule) (zc : Bool) (hm : 0 < mx) (hk : 0
   · exact hk
 
 
-/-- `W1` is inherited when the queue did not become non-empty, armed streams stay armed and a producer inside a
-    `wake_stream(i)` stays there or leaves stream `i` armed -/
+/-- `W1` is inherited when the queue did not become non-empty, armed streams stay armed, a producer inside a
+    `wake_stream(i)` stays there or leaves stream `i` armed, and the producer about to measure the length of the oldest
+    pending event is still there (or was replaced by something as good) -/
 theorem w1_transfer {s s' : St} (hk : s'.k = s.k) (hq : s'.q ≠ [] → s.q ≠ [])
     (ha : ∀ i, i < s.k → armed s i = true → armed s' i = true)
     (hw : ∀ t i, i < s.k → inWake (s.thr t) i → armed s' i = true ∨ ∃ t', inWake (s'.thr t') i)
-    (w1 : s.q ≠ [] → (∃ j, j < s.k ∧ armed s j = true) ∨ (∃ t j, j < s.k ∧ inWake (s.thr t) j)) :
-    s'.q ≠ [] → (∃ j, j < s'.k ∧ armed s' j = true) ∨ (∃ t j, j < s'.k ∧ inWake (s'.thr t) j) := by
+    (hs : ∀ t r, s.thr t = .pSmp s.delivered.length r → W1 s')
+    (w1 : s.q ≠ [] → W1 s) :
+    s'.q ≠ [] → W1 s' := by
   intro h
+  unfold W1
   rw [hk]
-  rcases w1 (hq h) with ⟨i, hi, h1⟩ | ⟨t, i, hi, h1⟩
+  rcases w1 (hq h) with ⟨i, hi, h1⟩ | ⟨t, i, hi, h1⟩ | ⟨t, r, h1⟩
   · exact .inl ⟨i, hi, ha i hi h1⟩
   · rcases hw t i hi h1 with h2 | ⟨t', h2⟩
     · exact .inl ⟨i, hi, h2⟩
-    · exact .inr ⟨t', i, hi, h2⟩
+    · exact .inr (.inl ⟨t', i, hi, h2⟩)
+  · have := hs t r h1; unfold W1 at this; rw [hk] at this; exact this
 
 set_option hygiene false in
-/-- the common script of a stream micro-step that publishes nothing: the first eight fields by `grind`, (W1) is
+/-- the common script of a stream micro-step that publishes nothing: the first fields by `grind`, (W1) is
     inherited because every armed stream stays armed.  Expects the destructured invariant under its field names. -/
 local macro "stream_step" : tactic => `(tactic| (
-  refine { mxpos := mxpos, kpos := kpos, keepT := ?_, resvE := resvE, noCanc := ?_, slocOut := ?_, slocLv := ?_,
-           w2 := ?_, w1 := w1_transfer (s := s) rfl id ?_ (fun t i _ h => .inr ⟨t, h⟩) w1 }
+  refine { mxpos := mxpos, kpos := kpos, keepT := ?_, lenEq := lenEq, suspAt := suspAt, noCanc := ?_, slocOut := ?_, slocLv := ?_,
+           w2 := ?_, w1 := w1_transfer (s := s) rfl id ?_ (fun t i _ h => .inr ⟨t, h⟩) (fun t r h => .inr (.inr ⟨t, r, h⟩)) w1 }
   · exact keepT
   · exact noCanc
   · simp only [setS, notify]; grind
@@ -100,7 +117,7 @@ local macro "stream_step" : tactic => `(tactic| (
 
 theorem winv_stepS (s : St) (j : Nat) (h : WInv s) : WInv (stepS s j) := by
   have h0 := h
-  obtain ⟨mxpos, kpos, keepT, resvE, noCanc, slocOut, slocLv, w2, w1⟩ := h
+  obtain ⟨mxpos, kpos, keepT, lenEq, suspAt, noCanc, slocOut, slocLv, w2, w1⟩ := h
   have lv := slocLv j
   have out := slocOut j
   have kp := keepT j
@@ -110,8 +127,10 @@ theorem winv_stepS (s : St) (j : Nat) (h : WInv s) : WInv (stepS s j) := by
   case parked => exact h0
   case sPoll =>
     split
-    · constructor <;> simp only [setS]
+    · rename_i v rest hq
+      constructor <;> simp only [setS]
       all_goals (first | assumption | skip)
+      · rw [hq] at lenEq; simp only [List.length_cons, List.length_append, List.length_nil] at lenEq ⊢; omega
       · grind
       · intro i; have := slocLv i; grind [SLoc.live]
       · grind
@@ -136,8 +155,9 @@ set_option hygiene false in
 /-- a producer `t` at `l₀ = wWake j r / wRetry j r` performs its `wake()` (or finds no waker) and is done: stream `j` is armed
     afterwards, every other `wake_stream` in progress is untouched -/
 local macro "wake_done" : tactic => `(tactic| (
-  refine { mxpos := mxpos, kpos := kpos, keepT := keepT, resvE := resvE, noCanc := ?_, slocOut := slocOut,
-           slocLv := slocLv, w2 := w2, w1 := w1_transfer (s := s) rfl id ?_ ?_ w1 }
+  refine { mxpos := mxpos, kpos := kpos, keepT := keepT, lenEq := lenEq, suspAt := ?_, noCanc := ?_, slocOut := slocOut,
+           slocLv := slocLv, w2 := w2, w1 := w1_transfer (s := s) rfl id ?_ ?_ ?_ w1 }
+  · simp only [setThr, notify]; grind
   · simp only [setThr, notify]; grind
   · intro i hi; simp only [armed, setThr, notify]; grind
   · intro t' i hi hw
@@ -146,27 +166,143 @@ local macro "wake_done" : tactic => `(tactic| (
       left; simp only [armed, setThr, notify]
       have := keepT _ hi
       cases hs : s.sloc j <;> simp only [hs, SLoc.live] at lv <;> grind
-    · right; exact ⟨t', by simp only [setThr, notify]; grind⟩))
+    · right; exact ⟨t', by simp only [setThr, notify]; grind⟩
+  · intro t' r' ht'; exact .inr (.inr ⟨t', r', by simp only [setThr, notify]; grind⟩)))
 
 set_option hygiene false in
 /-- a producer moves inside `wake_stream(j)` -/
 local macro "wake_move" : tactic => `(tactic| (
-  refine { mxpos := mxpos, kpos := kpos, keepT := keepT, resvE := resvE, noCanc := ?_, slocOut := slocOut,
-           slocLv := slocLv, w2 := w2, w1 := w1_transfer (s := s) rfl id ?_ ?_ w1 }
+  refine { mxpos := mxpos, kpos := kpos, keepT := keepT, lenEq := lenEq, suspAt := ?_, noCanc := ?_, slocOut := slocOut,
+           slocLv := slocLv, w2 := w2, w1 := w1_transfer (s := s) rfl id ?_ ?_ ?_ w1 }
+  · simp only [setThr]; grind
   · simp only [setThr]; grind
   · intro i hi; simp only [armed, setThr]; grind
   · intro t' i hi hw
-    right; refine ⟨t', ?_⟩; simp only [setThr]; grind [inWake]))
+    right; refine ⟨t', ?_⟩; simp only [setThr]; grind [inWake]
+  · intro t' r' ht'; exact .inr (.inr ⟨t', r', by simp only [setThr]; grind⟩)))
+
+/-- a producer that is neither inside a `wake_stream` nor about to measure a length moves to `l` (not a cancel), possibly
+    changing queue / reservations / ghost lists / pool count: fine if a newly non-empty queue comes with a `wake_stream(j)` for an
+    existing stream `j`, or with the measurement of the oldest pending event's length -/
+theorem winv_setThr_q (s : St) (t : Nat) (l : PLoc) (q' acc : List Nat) (rv : List (Nat × Nat)) (hd : Nat) (h : WInv s)
+    (hnw : ∀ i, ¬ inWake (s.thr t) i) (hns : ∀ d r, s.thr t ≠ .pSmp d r) (hl : ∀ j, l ≠ .cCancel j)
+    (hsu : ∀ v lb, l = .aSusp v lb → s.rule = .atomic)
+    (hlen : acc.length = s.delivered.length + q'.length)
+    (hq : q' ≠ [] → s.q ≠ [] ∨ (∃ j, j < s.k ∧ inWake l j) ∨ ∃ r, l = .pSmp s.delivered.length r) :
+    WInv (setThr { s with q := q', accepted := acc, resv := rv, held := hd } t l) := by
+  obtain ⟨mxpos, kpos, keepT, lenEq, suspAt, noCanc, slocOut, slocLv, w2, w1⟩ := h
+  refine { mxpos := mxpos, kpos := kpos, keepT := keepT, lenEq := hlen, suspAt := ?_, noCanc := ?_, slocOut := slocOut,
+           slocLv := slocLv, w2 := w2, w1 := ?_ }
+  · intro u v lb hu
+    simp only [setThr] at hu
+    by_cases e : u = t
+    · subst e; simp only [if_true] at hu; exact hsu v lb hu
+    · simp only [e, if_false] at hu; exact suspAt u v lb hu
+  · simp only [setThr]; grind
+  · intro hq'
+    rcases hq hq' with hq0 | ⟨j, hj, hw⟩ | ⟨r, hs⟩
+    · rcases w1 hq0 with ⟨i, hi, ha⟩ | ⟨t', i, hi, hw⟩ | ⟨t', r', ht'⟩
+      · exact .inl ⟨i, hi, ha⟩
+      · refine .inr (.inl ⟨t', i, hi, ?_⟩)
+        simp only [setThr]; grind
+      · refine .inr (.inr ⟨t', r', ?_⟩)
+        have : t' ≠ t := fun e => hns _ _ (e ▸ ht')
+        simp only [setThr, this, if_false]; exact ht'
+    · exact .inr (.inl ⟨t, j, hj, by simp [setThr, hw]⟩)
+    · exact .inr (.inr ⟨t, r, by simp [setThr, hs]⟩)
+
+theorem afterPublish_eq (s : St) (t len : Nat) : afterPublish s t len = afterPublishR s s.rule t len := rfl
+
+/-- a publication that observed the exact length when the queue was empty -/
+theorem winv_publish (s : St) (t v : Nat) (hd : Nat) (r : Rule) (len : Nat) (h : WInv s)
+    (hnw : ∀ i, ¬ inWake (s.thr t) i) (hns : ∀ d r, s.thr t ≠ .pSmp d r) (hlen : s.q = [] → len = 1) :
+    WInv (afterPublishR { s with q := s.q ++ [v], accepted := s.accepted ++ [v], held := hd } r t len) := by
+  have hl : (s.accepted ++ [v]).length = s.delivered.length + (s.q ++ [v]).length := by
+    have := h.lenEq; simp only [List.length_append, List.length_cons, List.length_nil]; omega
+  simp only [afterPublishR]
+  split
+  · rename_i j hj
+    refine winv_setThr_q s t _ _ _ s.resv _ h hnw hns (by simp) (by simp) hl ?_
+    intro _
+    by_cases hq : s.q = []
+    · right; left
+      rw [hlen hq, rule_target_one r _ h.mxpos] at hj
+      exact ⟨0, h.kpos, by simp only [Option.some.injEq] at hj; simp [inWake, hj]⟩
+    · exact .inl hq
+  · rename_i hj
+    refine winv_setThr_q s t _ _ _ s.resv _ h hnw hns (by simp) (by simp) hl ?_
+    intro _
+    by_cases hq : s.q = []
+    · rw [hlen hq, rule_target_one r _ h.mxpos] at hj; cases hj
+    · exact .inl hq
+
+/-- the producer measures the length after its publication and decides whom to wake -/
+theorem winv_sample (s : St) (t slot : Nat) (r : Rule) (h : WInv s) (hl : s.thr t = .pSmp slot r) :
+    WInv (afterPublishR s r t (max 1 (slot + 1 - s.delivered.length))) := by
+  obtain ⟨mxpos, kpos, keepT, lenEq, suspAt, noCanc, slocOut, slocLv, w2, w1⟩ := h
+  have key : ∀ l : PLoc, (∀ j, l ≠ .cCancel j) → (∀ v lb, l ≠ .aSusp v lb) →
+      (slot = s.delivered.length → ∃ j, j < s.k ∧ inWake l j) → WInv (setThr s t l) := by
+    intro l hc hsu hwk
+    refine { mxpos := mxpos, kpos := kpos, keepT := keepT, lenEq := lenEq, suspAt := ?_, noCanc := ?_, slocOut := slocOut,
+             slocLv := slocLv, w2 := w2, w1 := ?_ }
+    · intro u v lb hu
+      simp only [setThr] at hu
+      by_cases e : u = t
+      · subst e; simp only [if_true] at hu; exact absurd hu (hsu v lb)
+      · simp only [e, if_false] at hu; exact suspAt u v lb hu
+    · simp only [setThr]; grind
+    · intro hq
+      rcases w1 hq with ⟨i, hi, ha⟩ | ⟨t', i, hi, hw⟩ | ⟨t', r', ht'⟩
+      · exact .inl ⟨i, hi, ha⟩
+      · refine .inr (.inl ⟨t', i, hi, ?_⟩)
+        simp only [setThr]; grind [inWake]
+      · by_cases e : t' = t
+        · subst e
+          rw [hl] at ht'
+          obtain ⟨j, hj, hw⟩ := hwk (by simp only [PLoc.pSmp.injEq] at ht'; exact ht'.1)
+          exact .inr (.inl ⟨t', j, hj, by simp [setThr, hw]⟩)
+        · exact .inr (.inr ⟨t', r', by simp only [setThr, e, if_false]; exact ht'⟩)
+  simp only [afterPublishR]
+  split
+  · rename_i j hj
+    refine key _ (by simp) (by simp) ?_
+    intro e
+    have : max 1 (slot + 1 - s.delivered.length) = 1 := by omega
+    rw [this, rule_target_one _ _ mxpos] at hj
+    exact ⟨0, kpos, by simp only [Option.some.injEq] at hj; simp [inWake, hj]⟩
+  · rename_i hj
+    refine key _ (by simp) (by simp) ?_
+    intro e
+    have : max 1 (slot + 1 - s.delivered.length) = 1 := by omega
+    rw [this, rule_target_one _ _ mxpos] at hj; cases hj
 
 theorem winv_stepP (s : St) (t : Nat) (h : WInv s) : WInv (stepP s t) := by
   have h0 := h
-  obtain ⟨mxpos, kpos, keepT, resvE, noCanc, slocOut, slocLv, w2, w1⟩ := h
+  obtain ⟨mxpos, kpos, keepT, lenEq, suspAt, noCanc, slocOut, slocLv, w2, w1⟩ := h
   cases hl : s.thr t <;> simp only [stepP, hl]
   case idle => exact h0
   case done => exact h0
   case aSusp => exact h0
   case zSusp => exact h0
   case cCancel j => exact absurd hl (noCanc t j)
+  case pClm v slot r =>
+    split
+    · rename_i t' x rest hr
+      split
+      · -- the publication: into an empty queue it is the oldest pending event
+        have hlen : (s.accepted ++ [v]).length = s.delivered.length + (s.q ++ [v]).length := by
+          simp only [List.length_append, List.length_cons, List.length_nil]; omega
+        refine winv_setThr_q s t _ _ _ rest s.held h0 (by intro i; rw [hl]; simp [inWake]) (by intro d r'; rw [hl]; simp)
+          (by simp) (by simp) hlen ?_
+        intro _
+        by_cases hq : s.q = []
+        · right; right
+          have : s.accepted.length = s.delivered.length := by rw [lenEq, hq]; simp
+          exact ⟨r, by rw [this]⟩
+        · exact .inl hq
+      · exact h0
+    · exact h0
+  case pSmp slot r => exact winv_sample s t slot r h0 hl
   case wWake j r =>
     have lv := slocLv j
     have w2j := w2 j
@@ -180,65 +316,27 @@ theorem winv_stepP (s : St) (t : Nat) (h : WInv s) : WInv (stepP s t) := by
     have w2j := w2 j
     split <;> wake_done
 
-/-- a producer that is not inside a `wake_stream` moves to `l` (not a cancel), possibly changing queue / ghost lists /
-    pool count: fine if a newly non-empty queue comes with a `wake_stream(j)` for an existing stream `j` -/
-theorem winv_setThr_q (s : St) (t : Nat) (l : PLoc) (q' acc : List Nat) (hd : Nat) (h : WInv s)
-    (hnw : ∀ i, ¬ inWake (s.thr t) i) (hl : ∀ j, l ≠ .cCancel j)
-    (hq : q' ≠ [] → s.q ≠ [] ∨ ∃ j, j < s.k ∧ inWake l j) :
-    WInv (setThr { s with q := q', accepted := acc, held := hd } t l) := by
-  obtain ⟨mxpos, kpos, keepT, resvE, noCanc, slocOut, slocLv, w2, w1⟩ := h
-  refine { mxpos := mxpos, kpos := kpos, keepT := keepT, resvE := resvE, noCanc := ?_, slocOut := slocOut,
-           slocLv := slocLv, w2 := w2, w1 := ?_ }
-  · simp only [setThr]; grind
-  · intro hq'
-    rcases hq hq' with hq0 | ⟨j, hj, hw⟩
-    · rcases w1 hq0 with ⟨i, hi, ha⟩ | ⟨t', i, hi, hw⟩
-      · exact .inl ⟨i, hi, ha⟩
-      · refine .inr ⟨t', i, hi, ?_⟩
-        simp only [setThr]; grind
-    · exact .inr ⟨t, j, hj, by simp [setThr, hw]⟩
-
-theorem afterPublish_eq (s : St) (t len : Nat) : afterPublish s t len = afterPublishR s s.rule t len := rfl
-
-/-- a publication that observed the exact length when the queue was empty -/
-theorem winv_publish (s : St) (t v : Nat) (acc : List Nat) (hd : Nat) (r : Rule) (len : Nat) (h : WInv s)
-    (hnw : ∀ i, ¬ inWake (s.thr t) i) (hlen : s.q = [] → len = 1) :
-    WInv (afterPublishR { s with q := s.q ++ [v], accepted := acc, held := hd } r t len) := by
-  simp only [afterPublishR]
-  split
-  · rename_i j hj
-    refine winv_setThr_q s t _ _ _ _ h hnw (by simp) ?_
-    intro _
-    by_cases hq : s.q = []
-    · right
-      rw [hlen hq, rule_target_one r _ h.mxpos] at hj
-      exact ⟨0, h.kpos, by simp only [Option.some.injEq] at hj; simp [inWake, hj]⟩
-    · exact .inl hq
-  · rename_i hj
-    refine winv_setThr_q s t _ _ _ _ h hnw (by simp) ?_
-    intro _
-    by_cases hq : s.q = []
-    · rw [hlen hq, rule_target_one r _ h.mxpos] at hj; cases hj
-    · exact .inl hq
-
 theorem not_inWake_idle {s : St} {t : Nat} (h : s.thr t = .idle) : ∀ i, ¬ inWake (s.thr t) i := by
   intro i; rw [h]; simp [inWake]
+
+theorem not_pSmp_idle {s : St} {t : Nat} (h : s.thr t = .idle) : ∀ d r, s.thr t ≠ .pSmp d r := by
+  intro d r; rw [h]; simp
 
 /-- a stream is polled (from `ready`, or from `parked` with any token): it is armed afterwards -/
 theorem winv_poll (s : St) (j : Nat) (newTok : Option Nat) (h : WInv s) : WInv (apply s (.poll j newTok)) := by
   have h0 := h
-  obtain ⟨mxpos, kpos, keepT, resvE, noCanc, slocOut, slocLv, w2, w1⟩ := h
+  obtain ⟨mxpos, kpos, keepT, lenEq, suspAt, noCanc, slocOut, slocLv, w2, w1⟩ := h
   simp only [apply]
   split
   · rename_i hj
     split
-    · refine { mxpos := mxpos, kpos := kpos, keepT := keepT, resvE := resvE, noCanc := noCanc, slocOut := ?_,
+    · refine { mxpos := mxpos, kpos := kpos, keepT := keepT, lenEq := lenEq, suspAt := suspAt, noCanc := noCanc, slocOut := ?_,
                slocLv := ?_, w2 := ?_, w1 := ?_ }
       · simp only [setS]; grind
       · intro i; have := slocLv i; simp only [setS]; grind [SLoc.live]
       · simp only [setS]; grind
       · intro _; exact .inl ⟨j, hj, by simp [armed, setS]⟩
-    · refine { mxpos := mxpos, kpos := kpos, keepT := keepT, resvE := resvE, noCanc := noCanc, slocOut := ?_,
+    · refine { mxpos := mxpos, kpos := kpos, keepT := keepT, lenEq := lenEq, suspAt := suspAt, noCanc := noCanc, slocOut := ?_,
                slocLv := ?_, w2 := ?_, w1 := ?_ }
       · simp only [setS]; grind
       · intro i; have := slocLv i; simp only [setS]; grind [SLoc.live]
@@ -247,7 +345,8 @@ theorem winv_poll (s : St) (j : Nat) (newTok : Option Nat) (h : WInv s) : WInv (
     · exact h0
   · exact h0
 
-theorem winv_apply (s : St) (a : Act) (h : WInv s) (ha : C04Act a) : WInv (apply s a) := by
+theorem winv_apply (s : St) (a : Act) (h : WInv s) (ha : C04Act s.rule a) : WInv (apply s a) := by
+  have hle := h.lenEq
   cases a <;> simp only [C04Act] at ha
   case send t v =>
     simp only [apply]
@@ -255,10 +354,18 @@ theorem winv_apply (s : St) (a : Act) (h : WInv s) (ha : C04Act a) : WInv (apply
     · rename_i ht
       split
       · rw [afterPublish_eq]
-        exact winv_publish s t v _ s.held _ _ h (not_inWake_idle ht) (by intro hq; simp [hq, h.resvE])
+        exact winv_publish s t v s.held _ _ h (not_inWake_idle ht) (not_pSmp_idle ht) (by intro hq; simp [hq])
       · split
-        · exact winv_setThr_q s t _ s.q s.accepted s.held h (not_inWake_idle ht) (by simp) (fun hq => .inl hq)
-        · exact winv_setThr_q s t _ s.q s.accepted s.held h (not_inWake_idle ht) (by simp) (fun hq => .inl hq)
+        · exact winv_setThr_q s t _ s.q s.accepted s.resv s.held h (not_inWake_idle ht) (not_pSmp_idle ht) (by simp) (by simp) hle (fun hq => .inl hq)
+        · exact winv_setThr_q s t _ s.q s.accepted s.resv s.held h (not_inWake_idle ht) (not_pSmp_idle ht) (by simp) (by simp) hle (fun hq => .inl hq)
+    · exact h
+  case claim t v =>
+    simp only [apply]
+    split
+    · rename_i ht
+      split
+      · exact winv_setThr_q s t _ s.q s.accepted _ s.held h (not_inWake_idle ht) (not_pSmp_idle ht) (by simp) (by simp) hle (fun hq => .inl hq)
+      · exact winv_setThr_q s t _ s.q s.accepted s.resv s.held h (not_inWake_idle ht) (not_pSmp_idle ht) (by simp) (by simp) hle (fun hq => .inl hq)
     · exact h
   case sendWith t v =>
     simp only [apply]
@@ -266,38 +373,53 @@ theorem winv_apply (s : St) (a : Act) (h : WInv s) (ha : C04Act a) : WInv (apply
     · rename_i ht
       split
       · rw [afterPublish_eq]
-        exact winv_publish s t v _ s.held _ _ h (not_inWake_idle ht) (by intro hq; simp [hq, h.resvE])
-      · exact winv_setThr_q s t _ s.q s.accepted s.held h (not_inWake_idle ht) (by simp) (fun hq => .inl hq)
+        exact winv_publish s t v s.held _ _ h (not_inWake_idle ht) (not_pSmp_idle ht) (by intro hq; simp [hq])
+      · exact winv_setThr_q s t _ s.q s.accepted s.resv s.held h (not_inWake_idle ht) (not_pSmp_idle ht) (by simp) (by simp) hle (fun hq => .inl hq)
     · exact h
   case sendRsv t v =>
     simp only [apply]
     split
     · rename_i ht
       split
-      · exact winv_publish s t v _ s.held _ _ h (not_inWake_idle ht) (by intro hq; simp [hq, h.resvE])
-      · exact winv_setThr_q s t _ s.q s.accepted s.held h (not_inWake_idle ht) (by simp) (fun hq => .inl hq)
+      · exact winv_publish s t v s.held _ _ h (not_inWake_idle ht) (not_pSmp_idle ht) (by intro hq; simp [hq])
+      · exact winv_setThr_q s t _ s.q s.accepted s.resv s.held h (not_inWake_idle ht) (not_pSmp_idle ht) (by simp) (by simp) hle (fun hq => .inl hq)
+    · exact h
+  case asyncMov t v =>
+    simp only [apply]
+    split
+    · rename_i ht
+      split
+      · exact winv_setThr_q s t _ s.q s.accepted _ s.held h (not_inWake_idle ht) (not_pSmp_idle ht) (by simp) (fun _ _ _ => ha) hle (fun hq => .inl hq)
+      · exact winv_setThr_q s t _ s.q s.accepted s.resv s.held h (not_inWake_idle ht) (not_pSmp_idle ht) (by simp) (by simp) hle (fun hq => .inl hq)
     · exact h
   case asyncZc t v =>
     simp only [apply]
     split
     · rename_i ht
       split
-      · exact winv_setThr_q s t _ s.q s.accepted _ h (not_inWake_idle ht) (by simp) (fun hq => .inl hq)
-      · exact winv_setThr_q s t _ s.q s.accepted s.held h (not_inWake_idle ht) (by simp) (fun hq => .inl hq)
+      · exact winv_setThr_q s t _ s.q s.accepted s.resv _ h (not_inWake_idle ht) (not_pSmp_idle ht) (by simp) (by simp) hle (fun hq => .inl hq)
+      · exact winv_setThr_q s t _ s.q s.accepted s.resv s.held h (not_inWake_idle ht) (not_pSmp_idle ht) (by simp) (by simp) hle (fun hq => .inl hq)
     · exact h
   case resume t =>
     simp only [apply]
     split
-    · simp only [h.resvE]; exact h
+    · rename_i v lb ht
+      split
+      · exact winv_setThr_q s t _ s.q s.accepted s.resv s.held h (by intro i; rw [ht]; simp [inWake]) (by intro d r'; rw [ht]; simp)
+          (by simp) (by simp) hle (fun hq => .inl hq)
+      · rename_i hr; exact absurd (h.suspAt t v lb ht) hr
     · rename_i v ht
-      rw [afterPublish_eq]
-      exact winv_publish s t v _ _ _ _ h (by intro i; rw [ht]; simp [inWake]) (by intro hq; simp [hq])
+      split
+      · exact winv_setThr_q s t _ s.q s.accepted _ _ h (by intro i; rw [ht]; simp [inWake]) (by intro d r'; rw [ht]; simp)
+          (by simp) (by simp) hle (fun hq => .inl hq)
+      · rw [afterPublish_eq]
+        exact winv_publish s t v _ _ _ h (by intro i; rw [ht]; simp [inWake]) (by intro d r'; rw [ht]; simp) (by intro hq; simp [hq])
     · exact h
   case release =>
     simp only [apply]
     split
-    · obtain ⟨mxpos, kpos, keepT, resvE, noCanc, slocOut, slocLv, w2, w1⟩ := h
-      exact ⟨mxpos, kpos, keepT, resvE, noCanc, slocOut, slocLv, w2, w1⟩
+    · obtain ⟨mxpos, kpos, keepT, lenEq, suspAt, noCanc, slocOut, slocLv, w2, w1⟩ := h
+      exact ⟨mxpos, kpos, keepT, lenEq, suspAt, noCanc, slocOut, slocLv, w2, w1⟩
     · exact h
   case poll j newTok => exact winv_poll s j newTok h
   case stepP t => exact winv_stepP s t h
@@ -306,45 +428,65 @@ theorem winv_apply (s : St) (a : Act) (h : WInv s) (ha : C04Act a) : WInv (apply
     simp only [apply]
     split
     · rename_i r ht
-      exact winv_setThr_q s t _ s.q s.accepted s.held h (by intro i; rw [ht]; simp [inWake]) (by simp)
-        (fun hq => .inl hq)
+      exact winv_setThr_q s t _ s.q s.accepted s.resv s.held h (by intro i; rw [ht]; simp [inWake]) (by intro d r'; rw [ht]; simp) (by simp)
+        (by simp) hle (fun hq => .inl hq)
     · exact h
 
-theorem winv_run (s : St) (as : List Act) (h : WInv s) (ha : ∀ a ∈ as, C04Act a) : WInv (run s as) := by
+/-- the wake rule is a constant of the execution -/
+theorem rule_stepP (s : St) (t : Nat) : (stepP s t).rule = s.rule := by
+  unfold stepP
+  (repeat' split) <;> simp [setThr, notify, afterPublishR] <;> (repeat' split) <;> rfl
+
+theorem rule_stepS (s : St) (j : Nat) : (stepS s j).rule = s.rule := by
+  unfold stepS
+  (repeat' split) <;> simp [setS, notify]
+
+theorem rule_apply (s : St) (a : Act) : (apply s a).rule = s.rule := by
+  cases a <;> simp only [apply, afterPublish, afterPublishR]
+  case stepP t => exact rule_stepP s t
+  case stepS j => exact rule_stepS s j
+  all_goals ((repeat' split) <;> simp [setThr, setS])
+
+theorem winv_run (s : St) (as : List Act) (h : WInv s) (ha : ∀ a ∈ as, C04Act s.rule a) : WInv (run s as) := by
   induction as generalizing s with
   | nil => exact h
   | cons a as ih =>
     simp only [run, List.foldl_cons]
-    exact ih _ (winv_apply s a h (ha a (by simp))) (fun b hb => ha b (by simp [hb]))
+    exact ih _ (winv_apply s a h (ha a (by simp))) (fun b hb => by rw [rule_apply]; exact ha b (by simp [hb]))
 
 /-- (W1) kills `stuck` -/
 theorem winv_not_stuck {s : St} (h : WInv s) : ¬ stuck s := by
   rintro ⟨hq, hp, hs⟩
-  rcases h.w1 hq with ⟨j, hj, ha⟩ | ⟨t, j, _, hw⟩
+  rcases h.w1 hq with ⟨j, hj, ha⟩ | ⟨t, j, _, hw⟩ | ⟨t, ht⟩
   · have := hs j hj (h.keepT j hj)
     simp [armed, this.1, this.2] at ha
   · rcases hp t with h1 | ⟨r, h1⟩ <;> simp [h1, inWake] at hw
+  · obtain ⟨r', ht⟩ := ht
+    rcases hp t with h1 | ⟨r, h1⟩ <;> simp [h1] at ht
 
 /-! ## deciding `stuck` on concrete executions -/
 
 /-- the producer thread an action belongs to -/
 def Act.thread : Act → Option Nat
-  | .send t _ | .sendWith t _ | .sendRsv t _ | .asyncMov t _ | .asyncZc t _ | .resume t | .cancel t _ | .stepP t
+  | .send t _ | .claim t _ | .sendWith t _ | .sendRsv t _ | .asyncMov t _ | .asyncZc t _ | .resume t | .cancel t _ | .stepP t
   | .ack t => some t
   | _ => none
-
-theorem thr_stepP_ne (s : St) (t u : Nat) (h : t ≠ u) : (stepP s t).thr u = s.thr u := by
-  unfold stepP
-  split <;> (try split) <;> simp [setThr, notify] <;> grind
-
-theorem thr_stepS (s : St) (j : Nat) : (stepS s j).thr = s.thr := by
-  unfold stepS
-  split <;> (try split) <;> simp [setS, notify]
 
 theorem thr_afterPublishR_ne (s : St) (r : Rule) (t len u : Nat) (h : t ≠ u) :
     (afterPublishR s r t len).thr u = s.thr u := by
   unfold afterPublishR
   split <;> simp [setThr] <;> grind
+
+theorem thr_stepP_ne (s : St) (t u : Nat) (h : t ≠ u) : (stepP s t).thr u = s.thr u := by
+  have hne : u ≠ t := fun e => h e.symm
+  unfold stepP
+  split
+  case h_6 => exact thr_afterPublishR_ne s _ t _ u h
+  all_goals ((repeat' split) <;> simp [setThr, notify, hne])
+
+theorem thr_stepS (s : St) (j : Nat) : (stepS s j).thr = s.thr := by
+  unfold stepS
+  split <;> (try split) <;> simp [setS, notify]
 
 theorem thr_apply_of_ne (s : St) (a : Act) (u : Nat) (h : a.thread ≠ some u) : (apply s a).thr u = s.thr u := by
   cases a <;> simp only [Act.thread, ne_eq, Option.some.injEq] at h <;> simp only [apply, afterPublish_eq]
